@@ -20,6 +20,7 @@ func VerifC01Recorded() {
 	if !st.valid {
 		return
 	}
+	c18WantNull = c18NullTemplate(st.name)
 	w := c18Setup(st.composite, c18AutoKey(st.name))
 	s := uSchemas[0]
 	if st.composite {
@@ -29,21 +30,13 @@ func VerifC01Recorded() {
 	for _, r := range w.d.rows {
 		if r.present {
 			cells := make([]driver.Value, len(r.cells))
-			for k, c := range r.cells {
-				cells[k] = c
+			for k := range r.cells {
+				cells[k] = r.get(k)
 			}
 			initial = append(initial, uRow{cells: cells, present: true})
 		}
 	}
-	args := make([]driver.NamedValue, st.nargs)
-	argNames := []string{"arg0", "arg1", "arg2", "arg3", "arg4", "arg5", "arg6"}
-	for i := range args {
-		if kv, ok := st.keyArgs[i]; ok {
-			args[i] = driver.NamedValue{Ordinal: i + 1, Value: kv}
-		} else {
-			args[i] = driver.NamedValue{Ordinal: i + 1, Value: vrt.Int64(argNames[i])}
-		}
-	}
+	args := c18Args(st)
 	tx, err := w.c.BeginTx(w.ctx, driver.TxOptions{})
 	vrt.Assert(err == nil && tx != nil, "c01/recorded/begin-ok")
 	_, err = w.c.ExecContext(w.ctx, st.query, args)
@@ -72,8 +65,8 @@ func VerifC01Recorded() {
 	for _, r := range w.d.rows {
 		if r.present {
 			cells := make([]driver.Value, len(r.cells))
-			for k, c := range r.cells {
-				cells[k] = c
+			for k := range r.cells {
+				cells[k] = r.get(k)
 			}
 			uw.d.rows = append(uw.d.rows, uRow{cells: cells, present: true})
 		}
@@ -95,24 +88,17 @@ func VerifC01Recorded() {
 // have overwritten that write.
 func VerifC09Recorded() {
 	st := c18Stmts[vrt.Choice("statement", len(c18Stmts))]
-	name := st.name
+	name := strings.TrimPrefix(st.name, "null-")
 	if !st.valid || strings.HasPrefix(name, "insert-") || strings.HasPrefix(name, "delete-") || strings.HasPrefix(name, "multi-delete") || strings.HasPrefix(name, "upsert-") {
 		return // the insert / delete undo executors validate nothing: recorded findings of VerifC09Foreign
 	}
+	c18WantNull = c18NullTemplate(st.name)
 	w := c18Setup(st.composite, c18AutoKey(st.name))
 	s := uSchemas[0]
 	if st.composite {
 		s = uSchemas[1]
 	}
-	args := make([]driver.NamedValue, st.nargs)
-	argNames := []string{"arg0", "arg1", "arg2", "arg3", "arg4", "arg5", "arg6"}
-	for i := range args {
-		if kv, ok := st.keyArgs[i]; ok {
-			args[i] = driver.NamedValue{Ordinal: i + 1, Value: kv}
-		} else {
-			args[i] = driver.NamedValue{Ordinal: i + 1, Value: vrt.Int64(argNames[i])}
-		}
-	}
+	args := c18Args(st)
 	tx, err := w.c.BeginTx(w.ctx, driver.TxOptions{})
 	vrt.Assert(err == nil && tx != nil, "c09/recorded/begin-ok")
 	_, err = w.c.ExecContext(w.ctx, st.query, args)
@@ -140,8 +126,8 @@ func VerifC09Recorded() {
 	for _, r := range w.d.rows {
 		if r.present {
 			cells := make([]driver.Value, len(r.cells))
-			for k, c := range r.cells {
-				cells[k] = c
+			for k := range r.cells {
+				cells[k] = r.get(k)
 			}
 			uw.d.rows = append(uw.d.rows, uRow{cells: cells, present: true})
 		}
